@@ -488,3 +488,51 @@ func (t *ftr) desugarPromoted(e *ast.SelectorExpr) *ast.SelectorExpr {
 	}
 	return e
 }
+
+// ------------------------------------------------------------------ maps as association lists
+
+var mapHelpersDone bool
+
+// ensureMapHelpers writes the four map operations into the generated file (once): a map is a list of
+// (key, value) pairs, the first pair for a key counts, `go_map_set` keeps keys unique.
+func ensureMapHelpers() {
+	if mapHelpersDone {
+		return
+	}
+	mapHelpersDone = true
+	out.WriteString(`(* Go maps as association lists: the first pair for a key counts; go_map_set replaces in place or appends, so
+   keys stay unique in every map the translated code builds. Iteration order is not modelled (range over a map is
+   translated only under "map_range_in_list_order"). *)
+Definition go_map_has {K V : Type} (eqb : K -> K -> bool) (m : list (K * V)) (k : K) : bool :=
+  existsb (fun p => eqb (fst p) k) m.
+Definition go_map_get {K V : Type} (eqb : K -> K -> bool) (d : V) (m : list (K * V)) (k : K) : V :=
+  match find (fun p => eqb (fst p) k) m with Some p => snd p | None => d end.
+Definition go_map_del {K V : Type} (eqb : K -> K -> bool) (m : list (K * V)) (k : K) : list (K * V) :=
+  filter (fun p => negb (eqb (fst p) k)) m.
+Definition go_map_set {K V : Type} (eqb : K -> K -> bool) (m : list (K * V)) (k : K) (v : V) : list (K * V) :=
+  if go_map_has eqb m k then map (fun p => if eqb (fst p) k then (k, v) else p) m else m ++ [(k, v)].
+
+`)
+}
+
+// mapIndex renders m[k]: the value (zero when absent), or the pair (value, present) in comma-ok form.
+func (t *ftr) mapIndex(e *ast.IndexExpr, mk tkind) string {
+	ensureMapHelpers()
+	m := t.expr(e.X)
+	k := t.exprAs(e.Index, *mk.key)
+	var vty types.Type
+	if mt, ok := types.Unalias(t.typeOf(e.X)).Underlying().(*types.Map); ok {
+		vty = mt.Elem()
+	}
+	var z string
+	if st, isSt := vty.(*types.Struct); isSt && st.NumFields() == 0 {
+		z = "false"
+	} else {
+		z = t.zeroName(*mk.elem, vty, e)
+	}
+	get := "(go_map_get " + mk.key.eqb() + " " + z + " " + m + " " + k + ")"
+	if _, commaOk := t.pi.info.Types[e].Type.(*types.Tuple); commaOk {
+		return "(" + get + ", go_map_has " + mk.key.eqb() + " " + m + " " + k + ")"
+	}
+	return get
+}
